@@ -168,3 +168,73 @@ Proof.
   destruct (C3 i Hi Hbit) as [D1 D2]. destruct (C2 i D1) as [D3 D4].
   apply Htrust; assumption.
 Qed.
+
+(* ---------------------------------------------------------------- the loss subset and the perturbations, explicit *)
+Lemma Forall2_nth {A B} (R : A -> B -> Prop) l1 l2 k a b :
+  Forall2 R l1 l2 -> nth_error l1 k = Some a -> nth_error l2 k = Some b -> R a b.
+Proof.
+  intros HF; revert k. induction HF; intros [|k] Ha Hb; simpl in *; try discriminate.
+  - inversion Ha; inversion Hb; subst; assumption.
+  - eauto.
+Qed.
+
+Definition covered (fs : list finfo) (k i : nat) : bool :=
+  match nth_error fs k with
+  | Some f => negb (fi_pad f) && Nat.leb (fi_first f) i && Nat.ltb i (fi_last f)
+  | None => false
+  end.
+
+(* what is valid on disk in the second lifetime: valid before the crash, not lost, under no touched file *)
+Definition valid_after (n : nat) (fs : list finfo) (valid_before : list bool) (lost : list nat) (touched : nat -> bool) : list bool :=
+  map (fun i => nth i valid_before false && negb (existsb (Nat.eqb i) lost) &&
+                negb (existsb (fun k => touched k && covered fs k i) (seq 0 (length fs)))) (seq 0 n).
+
+Lemma valid_after_nth n fs vb lost touched i : i < n ->
+  nth i (valid_after n fs vb lost touched) false =
+  nth i vb false && negb (existsb (Nat.eqb i) lost) &&
+  negb (existsb (fun k => touched k && covered fs k i) (seq 0 (length fs))).
+Proof.
+  intros Hi. unfold valid_after.
+  match goal with |- nth i (map ?f _) false = _ => set (g := f) end.
+  rewrite (nth_indep (map g (seq 0 n)) false (g 0)) by (rewrite map_length, seq_length; assumption).
+  rewrite map_nth, seq_nth by assumption. reflexivity.
+Qed.
+
+(* resume_sound for EVERY loss subset and EVERY set of touched files:
+     - the previous session only set bits of pieces that were valid then (C01),
+     - the crash loses ANY subset [lost] of the pieces the saved uncertain list names,
+     - afterwards ANY set of files is touched (deleted, truncated, extended, rewritten), where touching a
+       file makes the loader's keep-test fail for it (size or mtime changes, and the file was not saved ~3
+       — the recorded known finding is exactly the failure of this for ~3),
+   then after load + check every set bit is a piece valid on the perturbed disk. *)
+Theorem resume_sound_loss n ld fs ms bits_s flags0 u ts r valid_before lost touched :
+  r_map r = true -> r_files r = Some (map (fun m => FMap (MVal m)) ms) -> length ms = length fs ->
+  r_unc r = Some u -> r_unc_ts r = Some ts -> (ts < ld)%Z ->
+  load_bitfield n (opened n (length fs)) (r_bits r) = Some (mkL (Some bits_s) (repeat false n) flags0) ->
+  snd (load n ld fs (opened n (length fs)) r) = Loaded ->
+  (forall i, i < n -> nth i bits_s false = true -> nth i valid_before false = true) ->
+  incl lost (unc_indices u (length u)) ->
+  (forall k f m, nth_error fs k = Some f -> nth_error ms k = Some m -> touched k = true -> fi_pad f = false -> ~ kept f m) ->
+  let valid := valid_after n fs valid_before lost touched in
+  forall i, i < n ->
+    nth i (check (fst (load n ld fs (opened n (length fs)) r)) valid) false = true -> nth i valid false = true.
+Proof.
+  intros Hmap Hfiles Hlen Hunc Hts Hlt Hbf Hout Hvb Hlost Htouch valid.
+  apply (resume_sound n ld fs ms bits_s flags0 u ts valid r); auto.
+  { unfold valid, valid_after. rewrite map_length, seq_length. reflexivity. }
+  intros i Hi Hbit Hkept Hnu. unfold valid. rewrite valid_after_nth by assumption.
+  rewrite (Hvb i Hi Hbit). simpl.
+  assert (H1 : existsb (Nat.eqb i) lost = false).
+  { destruct (existsb (Nat.eqb i) lost) eqn:E; [|reflexivity]. apply existsb_exists in E.
+    destruct E as (x & Hin & Hx). apply Nat.eqb_eq in Hx. subst x. exfalso. apply Hnu. apply Hlost. assumption. }
+  rewrite H1. simpl.
+  destruct (existsb (fun k => touched k && covered fs k i) (seq 0 (length fs))) eqn:E; [|reflexivity].
+  apply existsb_exists in E. destruct E as (k & Hin & Hk). apply andb_true_iff in Hk. destruct Hk as [Ht Hc].
+  unfold covered in Hc. destruct (nth_error fs k) as [f|] eqn:Hf; [|discriminate].
+  apply andb_true_iff in Hc. destruct Hc as [Hc H3]. apply andb_true_iff in Hc. destruct Hc as [Hp H2].
+  apply negb_true_iff in Hp. apply Nat.leb_le in H2. apply Nat.ltb_lt in H3.
+  destruct (nth_error ms k) as [m|] eqn:Hm.
+  - exfalso. apply (Htouch k f m Hf Hm Ht Hp).
+    apply (Forall2_nth _ _ _ k f m Hkept Hf Hm Hp). split; assumption.
+  - exfalso. apply nth_error_None in Hm. assert (k < length fs) by (apply nth_error_Some; rewrite Hf; discriminate). lia.
+Qed.
